@@ -28,3 +28,5 @@ open ZnVerif.Properties.C18
 #print axioms ZnVerif.Properties.C05.display_total
 #print axioms ZnVerif.Properties.C05.quoted_line_is_physical
 #print axioms ZnVerif.Properties.C05.caret_under_offender
+#print axioms ZnVerif.Properties.C05.leftover_error_at_first_leftover_token
+#print axioms ZnVerif.Properties.C05.overindented_line_after_fix
